@@ -378,12 +378,21 @@ func (s *Server) Modify(ms spb.GRIBI_ModifyServer) error {
 	}()
 
 	resultDone := make(chan struct{})
+	// writerDone is closed when the goroutine that writes results to the stream has
+	// exited. The RPC must not end whilst a result that was handed to that goroutine
+	// is still to be written - otherwise a client that half-closes the stream straight
+	// after its last request never receives the last result(s).
+	writerDone := make(chan struct{})
 	go func() {
+		defer close(writerDone)
 		for {
 			select {
 			case res := <-resultChan:
 				if err := ms.Send(res); err != nil {
-					errCh <- status.Errorf(codes.Internal, "cannot write message to client channel, %s", res)
+					select {
+					case errCh <- status.Errorf(codes.Internal, "cannot write message to client channel, %s", res):
+					case <-resultDone:
+					}
 					return
 				}
 			case <-resultDone:
@@ -394,6 +403,7 @@ func (s *Server) Modify(ms spb.GRIBI_ModifyServer) error {
 
 	err := <-errCh
 	close(resultDone)
+	<-writerDone
 
 	// when this client goes away, we need to clean up its state.
 	s.deleteClient(cid)
